@@ -78,6 +78,22 @@ def run(out: common.Outcome, explore: int = 0) -> None:
     # direction 2 on strings rendered by the implementation itself and by python's own formatting
     g_cases = [(u, s, impl_g(s)) for (u, s) in a_cases if not s.startswith("ERR:")]
 
+    # the PV -> OTel step as the tool performs it (pv_event_to_otel): start and end of the span are the converter's value
+    from tel2puml.pv_to_tel import pv_event_to_otel
+    ev_bad, n_ev = [], 0
+    for (u, s0, g0) in g_cases[:n_boundary] + g_cases[n_boundary:n_boundary + 1500]:
+        n_ev += 1
+        try:
+            sp = pv_event_to_otel(dict(jobId="j", eventId="e", timestamp=s0, applicationName="a", jobName="n", eventType="t"))
+            got = (int(sp["start_time_unix_nano"]), int(sp["end_time_unix_nano"]))
+        except Exception as e:  # noqa
+            got = "ERR:" + type(e).__name__ + ": " + str(e)[:80]
+        if got != (g0, g0):
+            ev_bad.append(dict(pv_string=s0, converter=g0, span_start_end=got, instant_us=u))
+    for b in ev_bad[:2]:
+        out.violation({"kind": "pv_event_to_otel does not give the span the converter's value for the event's timestamp", **b})
+    out.coverage["pv_event_to_otel_cases"] = n_ev
+
     # the same converters in a process whose local time zone is not UTC (results must not depend on TZ)
     import subprocess, json as _json
     tz_inst = inst[:n_boundary:7] + inst[n_boundary:n_boundary + 300]
@@ -222,7 +238,18 @@ def replay(out: common.Outcome, rp: dict) -> None:
     if "unix_nano" in rp:
         got = unix_nano_to_pv_string(rp["unix_nano"])
         print("unix_nano_to_pv_string(%d) = %s" % (rp["unix_nano"], got))
-    if "pv_string" in rp:
+    if "span_start_end" in rp:
+        from tel2puml.pv_to_tel import pv_event_to_otel
+        try:
+            sp = pv_event_to_otel(dict(jobId="j", eventId="e", timestamp=rp["pv_string"], applicationName="a", jobName="n", eventType="t"))
+            got = [int(sp["start_time_unix_nano"]), int(sp["end_time_unix_nano"])]
+        except Exception as e:  # noqa
+            got = "ERR:" + type(e).__name__
+        want = int(convert_timestamp_to_unix_nano(rp["pv_string"]))
+        print("pv_event_to_otel(timestamp=%r) start/end = %s, converter gives %d" % (rp["pv_string"], got, want))
+        if got != [want, want]:
+            out.violation(rp)
+    elif "pv_string" in rp:
         got = convert_timestamp_to_unix_nano(rp["pv_string"])
         print("convert_timestamp_to_unix_nano(%r) = %d, expected %d" % (rp["pv_string"], got, rp["expected_unix_nano"]))
         if got != rp["expected_unix_nano"]:
